@@ -7,7 +7,7 @@ UNIT = dict(
   properties=['C15'],
   items=[
     ('laythe_core/src/object/fun.rs', ['enum FunKind']),
-    ('laythe_vm/src/compiler/parser.rs', [("impl<'a> Parser<'a>", ['loop_', 'continue_', 'break_', 'fun_body', 'function', 'lambda', 'consume_arguments', 'call_params', 'call'])]),
+    ('laythe_vm/src/compiler/parser.rs', [("impl<'a> Parser<'a>", ['loop_', 'continue_', 'break_', 'fun_body', 'function', 'lambda', 'consume_arguments', 'call_params', 'call', 'method'])]),
   ],
   rewrites=[
     ('R11', 'enum FunKind', dict(drop=['Debug'], add=['Structural'])),
@@ -30,6 +30,11 @@ UNIT = dict(
     ('R6', 'Parser::lambda', dict(pat='mem::replace(&mut self.fun_kind, FunKind::Fun)', rep='self.verif_replace_fun_kind(FunKind::Fun)', count=1)),
     ('R6', 'Parser::lambda', dict(pat='self.call_signature(self.vec(), self.vec())?', rep='self.call_signature(Vec::new(), Vec::new())?', count=1)),
     ('R6', 'Parser::lambda', dict(pat='self.call_signature(params, self.vec())?', rep='self.call_signature(params, Vec::new())?', count=1)),
+    # method: the same three shapes as function / lambda
+    ('R6', 'Parser::method', dict(pat='mem::replace(&mut self.fun_kind, fun_kind)', rep='self.verif_replace_fun_kind(fun_kind)', count=1)),
+    ('R6', 'Parser::method', dict(pat='INIT == name.str()', rep='verif_is_init(name.str())', count=1)),
+    ('R6', 'Parser::method', dict(pat='self.vec()', rep='Vec::new()', count=1)),
+    ('R4', 'Parser::method', dict(pat=r'let method = self\s*\.function\(name, type_params, block_return\)\s*\.map\(\|fun\| \(fun_kind, fun\)\);', rep='let method = match self.function(name, type_params, block_return) { Ok(fun) => Ok((fun_kind, fun)), Err(verif_e) => Err(verif_e) };', regex=True, count=1)),
   ],
   assumption_ids=['A-parser'],
 )
